@@ -1,16 +1,44 @@
 (* C20 (hash part), M1 final_zeroes_ctx: every field of the context returned by SHA256_Final,
-   SHA1_Final, MD5_Final and the three HMAC_XXX_Final is zero - in the model instantiated with the
-   regenerated constants.  For HMAC-SHA256 the wipe is the explicit insecure_memzero of the whole
-   HMAC context in HMAC_SHA256_Final (the inner SHA256_Final_internal calls leave dirty contexts);
-   for HMAC-SHA1 / HMAC-MD5 there is no such call and the statement follows from the two inner
-   XXX_Final calls each wiping its half.
-   PARTIAL by nature: the model says which wipes are REQUESTED; that the compiled code really
-   performs them (insecure_memzero not elided at -O2) is decided by areas/hash.py check_wipe, which
-   inspects every byte of the real context objects.  The stack scratch arrays (tmp32, pad, khash,
-   ihash, W, S) are not part of the property's "context object" and are not modelled.
+   SHA1_Final, MD5_Final and the three HMAC_XXX_Final is zero, for every input context.
+
+   What is REGENERATED from the C at every run (tools/extract/x_hash.py -> Gen/Repo_hash.v), besides
+   the constants of the digest computation:
+     hash_structs    the field lists (element type, name, element count) of SHA256_CTX, SHA1_CTX,
+                     MD5_CTX, HMAC_SHA256_CTX, HMAC_SHA1_CTX, HMAC_MD5_CTX from the three headers;
+     hash_final_fns  for every function defined in alg/sha256.c, alg/sha1.c, alg/md5.c whose name
+                     contains "_Final" (the six public functions, SHA256_Final_internal,
+                     HMAC_SHA256_Final_internal): its context parameter and the ordered list of the
+                     statements of its body - plain calls with their argument texts, e.g.
+                     insecure_memzero(ctx, sizeof(SHA1_CTX)) or SHA1_Final(ihash, &ctx->ictx); any
+                     statement that is not a plain call (conditional, loop, return ..) is marked opaque.
+   The models' Final functions (Alg/HashRepo.v) contain NO wipe of their own: they return the context
+   as the computation leaves it (state words, bit count, buffer after padding) with exactly those
+   fields zeroed that are in the ZERO SET computed by the interpreter Alg/HashWipe.v from these lists:
+   a field is zero on return only if a regenerated insecure_memzero whose object text denotes the
+   context (or that field) and whose size text is sizeof(<its struct / element type>) (or sizeof of
+   the dereferenced parameter) says so, or an inner XXX_Final call on that sub-context does, and no
+   later statement touches it or is opaque.  A size text the interpreter cannot relate to the object
+   (sizeof(ctx) = a pointer's size, a literal, another type) zeroes nothing.
+   So: SHA256_Final / SHA1_Final / MD5_Final zero the object by their own insecure_memzero;
+   HMAC_SHA256_Final by its insecure_memzero(ctx, sizeof(HMAC_SHA256_CTX)) (the inner
+   SHA256_Final_internal calls wipe nothing); HMAC_SHA1_Final / HMAC_MD5_Final have no such call and
+   the statement follows from the zero sets of the two inner XXX_Final calls on &ctx->ictx and
+   &ctx->octx - all of this is derived from the regenerated lists by vm_compute, none of it is
+   written in the model.  Removing, mis-sizing, guarding or misplacing one of these wipes in the C
+   breaks the corresponding theorems below at the next run.
+   The *_wipes_whole theorems say the same about the LAYOUT: every leaf field of the context struct
+   as declared in the header (not only the three fields the model records have) is in the zero set.
+
+   PARTIAL by nature: the model says which wipes are REQUESTED by the source text; that the compiled
+   code really performs them (insecure_memzero not elided at -O2, sizeof what the text suggests) is
+   decided by areas/hash.py check_wipe, which inspects every byte of the real context objects after
+   Final (ASan build and plain -O2 build) and reports any non-zero byte with the input.  The stack
+   scratch arrays (tmp32, pad, khash, ihash, W, S) are not part of the property's "context object";
+   their wipes appear in the regenerated lists but denote no part of the context and are ignored.
    This file contains only statements, each closed by [exact], with Print Assumptions. *)
+From Coq Require Import String.
 From Coq Require Import NArith List.
-From LCP Require Import Alg.Words Alg.Sha256Model Alg.MD32Model Alg.HmacModel Alg.HashRepo Alg.HashRepoProofs.
+From LCP Require Import Gen.Repo_hash Alg.Words Alg.Sha256Model Alg.MD32Model Alg.HmacModel Alg.HashWipe Alg.HashRepo Alg.HashRepoProofs.
 
 Theorem C20_sha256_final_zeroes_ctx : forall c, c256_is_zero (snd (sha256_final c)) = true.
 Proof. exact repo_sha256_final_zeroes_ctx. Qed.
@@ -35,3 +63,35 @@ Print Assumptions C20_hmac_sha1_final_zeroes_ctx.
 Theorem C20_hmac_md5_final_zeroes_ctx : forall c, hctx32_is_zero (snd (hmacmd5_final c)) = true.
 Proof. exact repo_hmac_md5_final_zeroes_ctx. Qed.
 Print Assumptions C20_hmac_md5_final_zeroes_ctx.
+
+(* every leaf field of the context struct, as laid out in the regenerated header declarations, is in
+   the zero set the interpreter derives from the regenerated body of the function *)
+Theorem C20_sha256_final_wipes_whole :
+  wipes_whole_ctx hash_structs hash_final_fns "SHA256_Final"%string = true.
+Proof. exact repo_sha256_final_wipes_whole. Qed.
+Print Assumptions C20_sha256_final_wipes_whole.
+
+Theorem C20_sha1_final_wipes_whole :
+  wipes_whole_ctx hash_structs hash_final_fns "SHA1_Final"%string = true.
+Proof. exact repo_sha1_final_wipes_whole. Qed.
+Print Assumptions C20_sha1_final_wipes_whole.
+
+Theorem C20_md5_final_wipes_whole :
+  wipes_whole_ctx hash_structs hash_final_fns "MD5_Final"%string = true.
+Proof. exact repo_md5_final_wipes_whole. Qed.
+Print Assumptions C20_md5_final_wipes_whole.
+
+Theorem C20_hmac_sha256_final_wipes_whole :
+  wipes_whole_ctx hash_structs hash_final_fns "HMAC_SHA256_Final"%string = true.
+Proof. exact repo_hmac_sha256_final_wipes_whole. Qed.
+Print Assumptions C20_hmac_sha256_final_wipes_whole.
+
+Theorem C20_hmac_sha1_final_wipes_whole :
+  wipes_whole_ctx hash_structs hash_final_fns "HMAC_SHA1_Final"%string = true.
+Proof. exact repo_hmac_sha1_final_wipes_whole. Qed.
+Print Assumptions C20_hmac_sha1_final_wipes_whole.
+
+Theorem C20_hmac_md5_final_wipes_whole :
+  wipes_whole_ctx hash_structs hash_final_fns "HMAC_MD5_Final"%string = true.
+Proof. exact repo_hmac_md5_final_wipes_whole. Qed.
+Print Assumptions C20_hmac_md5_final_wipes_whole.
